@@ -47,6 +47,7 @@ void h_lib_hash_update(void) {
     IN_ls in = nondet_IN_ls(); FIX_TYPE(in);
     zckCtx *zck = mk_zck(&in); zckHash *h = mk_hash(&in, 1);
     char *m = malloc(in.size); V_ASSUME(m != NULL);
+    g_up_end = m; g_up_inorder = 1; g_up_len = 0; g_up_fn = 0; g_up_ctx = NULL;   /* no update recorded yet */
     bool r = lib_hash_update(zck, h, m, in.size);
     V_COVER(r && in.type == 3 && g_up_fn == REC_FN_SHA512); V_COVER(r && in.type == 0 && in.size == 70); V_COVER(r && in.type == 1 && in.size == 0); V_COVER(!r && in.type == 4);
     V_COVER(r && in.size > 0xffffffffull);
